@@ -86,8 +86,15 @@ def run_impl(sc):
         calls, results, datalog = [], [], []
 
         class Obj:
+            """registered objects are looked up by equality (they are dictionary keys), not by identity"""
             def __init__(self, i):
                 self.i = i
+
+            def __eq__(self, other):
+                return isinstance(other, Obj) and other.i == self.i
+
+            def __hash__(self):
+                return hash(('obj', self.i))
 
         class Sched(ActionScheduler):
             def default_action(self, obj, time, new_state):
@@ -130,7 +137,7 @@ def run_impl(sc):
             results.append([0, o, 1 if r else 0])
 
         def unreg(o):
-            r = sched.unregister_object(objs[o])
+            r = sched.unregister_object(Obj(o))          # an equal key built afresh
             results.append([1, o, 1 if r else 0])
 
         def mk(kind, o, ov=None):
